@@ -12,6 +12,51 @@ use std::collections::HashMap;
 const ALPHABET: [char; 8] = ['a', 'A', 'b', '/', ':', '%', '4', '1'];
 const VALUES: [&str; 8] = ["a", "A", "b", "%", "a b", "/", "a:b", ":"];
 
+
+// Patterns with multi-byte characters (the enumeration above is ASCII only): segment boundaries are BYTE offsets, so a character
+// that is longer than one byte in front of a parameter must not shift them. Same laws, a fixed list, panics are failures.
+fn non_ascii_check() -> Result<usize, String> {
+    let patterns = ["/café/:id", "/é/:é", ":né/x", "/日本/:名前/x", "/:a/é/:b"];
+    let values = ["a", "é", "日本", "a b"];
+    let mut evaluations = 0usize;
+    for ps in patterns {
+        let r = std::panic::catch_unwind(|| -> Result<usize, String> {
+            let mut n = 0usize;
+            let p = RoutePattern::parse_str(ps).map_err(|e| format!("pattern {:?} does not parse: {}", ps, e))?;
+            let names: Vec<String> = p.parameters().map(|s| s.to_string()).collect();
+            for name in &names {
+                if name.contains(':') || name.contains('/') {
+                    return Err(format!("pattern {:?} has a parameter named {:?}", ps, name));
+                }
+            }
+            for v1 in values {
+                for v2 in values {
+                    n += 1;
+                    let mut m = HashMap::new();
+                    for (k, name) in names.iter().enumerate() {
+                        m.insert(name.clone(), if k % 2 == 0 { v1.to_string() } else { v2.to_string() });
+                    }
+                    let uri = p.apply(&m).map_err(|e| format!("pattern {:?} could not be applied to {:?}: {}", ps, m, e))?;
+                    let back = p.unapply_str(&uri).map_err(|e| format!("pattern {:?}: its own instantiation {:?} does not match: {}", ps, uri, e))?;
+                    if back != m {
+                        return Err(format!("pattern {:?} filled with {:?} gives {:?}, which matches back as {:?}", ps, m, uri, back));
+                    }
+                }
+            }
+            if !RoutePattern::are_ambiguous(&p, &p) {
+                return Err(format!("pattern {:?} is not reported ambiguous with itself", ps));
+            }
+            Ok(n)
+        });
+        match r {
+            Ok(Ok(n)) => evaluations += n,
+            Ok(Err(e)) => return Err(e),
+            Err(_) => return Err(format!("pattern {:?}: parse / apply / unapply / are_ambiguous panicked", ps)),
+        }
+    }
+    Ok(evaluations)
+}
+
 fn all_patterns(max: usize) -> Vec<RoutePattern> {
     let mut out = vec![];
     let mut idx = vec![0usize; max];
@@ -153,6 +198,14 @@ fn route_pattern_contract() {
     }
     println!("BX-SAMPLE depth={depth}: {} valid patterns over the alphabet {:?}, {} generated URIs", patterns.len(), ALPHABET, uris.len());
     let mut failed = false;
+    std::panic::set_hook(Box::new(|_| {}));
+    match non_ascii_check() {
+        Ok(n) => println!("BX-OBL route_pattern::multi_byte_characters_do_not_shift_segment_boundaries ok evaluations={n} distinct={n}"),
+        Err(w) => {
+            println!("BX-FAIL route_pattern::multi_byte_characters_do_not_shift_segment_boundaries witness={w}");
+            failed = true;
+        }
+    }
     match inverse_fail {
         None => println!("BX-OBL route_pattern::unapply_inverts_apply ok evaluations={evaluations} distinct={}", patterns.len()),
         Some(w) => {
